@@ -133,6 +133,7 @@ fn uni_poly(deg: usize, seed: u64) -> UniPoly {
     if c[deg].is_zero() {
         c[deg] = Fr::from(1u64);
     }
+    crate::util::low_zeros(&mut c, seed);
     UniPoly::from_coefficients_vec(c)
 }
 
@@ -369,7 +370,13 @@ fn generators_ok<A: AffineRepr>(all: &[A]) -> Result<(), String> {
 }
 
 fn check_ipa(c: &Case, ctx: &mut CaseCtx) -> Result<(), Failure> {
-    let max_req = UNI_DEGS[pick(c.key.a, UNI_DEGS.len())];
+    // one case in six asks for a key around and beyond 256 / 512 generators
+    let max_req = if c.key.c % 6 == 5 {
+        [255, 256, 300, 511, 520, 700][(c.key.c as usize / 6) % 6]
+    } else {
+        UNI_DEGS[pick(c.key.a, UNI_DEGS.len())]
+    };
+    ctx.label_if(max_req >= 255, "large_key");
     let sup_req = 1 + pick(c.key.b, max_req);
     let max = (max_req + 1).next_power_of_two() - 1;
     let sup = (sup_req + 1).next_power_of_two() - 1;
